@@ -35,18 +35,23 @@ SPEC = {
 MANIFEST = {
     "text": "Theorems (Coq, no axioms), for every comment store, pending list and platform {is_equal, can_create, can_delete, create} satisfying law L1 "
             "(what Create stores is IsEqual to the pending comment): after a run every pending comment is IsEqual to a stored comment, or was refused by the "
-            "budget, or was skipped by Create; at most maxComments Create calls; nothing IsEqual to a pre-existing comment is created; exactly the deletable "
-            "comments equal to no pending one are deleted, all others untouched; a run that defers/skips nothing is a fixpoint (idempotent); with budget m "
-            "and no skips run ceil(n/m) defers nothing; dedupReports yields exactly one group per (severity, reporter, path, lines, anchor) carrying every "
-            "considered report's text, the comment line is the last modified line inside the problem's lines else its last line. L1 (and L2) are proved for "
-            "the GitLab model (after fix 38f6be7; refuted for the pre-fix variant with the design witness) and the GitHub model; the GitHub/GitLab 'skip' "
-            "exception is stated and its budget starvation is a proved refutation of convergence, confirmed on the real reporters (known finding). "
-            "Tie: every run drives the REAL reporter.Submit over multi-round scenarios against a stateful in-memory Commenter and compares pending comments, "
+            "budget, or cannot be placed by the platform (Create = errCommentSkipped, nothing stored, NOT counted against the budget since fix 15e1a20); at most "
+            "maxComments comments are placed; nothing IsEqual to a pre-existing comment is created; exactly the deletable comments equal to no pending one are "
+            "deleted, all others untouched; a run that defers no placeable comment is a fixpoint (stores nothing, deletes nothing, store unchanged) - no "
+            "'nothing skipped' premise; with budget m, run ceil(n/m) defers nothing placeable and leaves nothing to do, n = uncovered placeable comments - no "
+            "'path not in the PR diff' exception; the pre-fix accounting is proved to starve (refutation). dedupReports yields exactly one group per (severity, "
+            "reporter, path, lines, anchor) carrying every considered report's text; the comment line is the last modified line inside the problem's lines else "
+            "its last line. L1 (and L2) are proved for the GitLab model (after fix 38f6be7; refuted for the pre-fix variant) and the GitHub model, also over the "
+            "SERVER's state with List's filters (system / other author / general notes, comments without a path): what List does not show is never recognised "
+            "nor deleted; both platforms converge and reach a fixpoint. Tie: every run drives the REAL reporter.Submit over multi-round scenarios against a "
+            "stateful in-memory Commenter (which signals unplaceable comments with whatever the real platform code returns) and compares pending comments, "
             "create/delete logs and stores per round with the model; parseDiffLines/diffLineFor/fixCommentLine/reportToGitLabDiscussion/IsEqual are compared on "
-            "generated unified diffs; the property's clauses are checked directly on the real rounds, and on the real GitHub/GitLab reporters against fake APIs.",
+            "generated unified diffs; the real GitHub/GitLab reporters run against fake APIs and everything the server holds is compared per round with the "
+            "model (incl. GitLab's deduplicated 'too many comments' note). ONLY TESTED (oracle, not proved): the clauses on the real rounds, L1 on the real "
+            "functions, GitHub's Summary/general comments (known finding: the general comment is repeated on every run).",
     "note": "Coq 8.16.1 kernel+VM, no axioms. Trusted: hand models (validated differentially each run, not verified from source); comment text not modelled "
-            "(ids of trimmed text); servers assumed to echo positions; API errors outside the model; harness fakes.",
-    "technique": "Coq theorems over an abstract reconcile step + platform instances; differential correspondence through the real Submit with a stateful store; law checks on real platform functions; fake-API multi-round runs of the real reporters",
+            "in the in-memory rounds (ids of trimmed text); servers assumed to echo positions; API errors other than the skip signal outside the model; harness fakes.",
+    "technique": "Coq theorems over an abstract reconcile step + platform instances (helper level and server-state level); differential correspondence through the real Submit with a stateful store; law checks on real platform functions; fake-API multi-round runs of the real reporters compared with the model",
 }
 
 
